@@ -19,7 +19,7 @@ PROPS = {
     'C16': dict(
         units=['webserver'], level='proof',
         not_covered=[
-            'encode_trailers (trailers.iter().fold(..), an iterator adapter) is linked as assumed contract A-tonic-web-03: that the 0x80 frame lists EVERY trailer is not decided here',
+            'encode_trailers is under contract through the assumed HeaderMap::iter / Iterator::fold contracts (A-http-28, A-core-20) with three logged let-introductions (R20); a rewrite of it onto another iterator API (into_iter, for loops) leaves the shim and is reported undecided',
             'base64 itself (RFC 4648, decode of concatenated unpadded quanta) is assumed (A-b64-01); the whole-body statement follows from the per-call conservation clauses B1-B3 only under that assumption',
             'service.rs (request classification 405/400/pass-through, coerce_request/response) is not yet under contract in this build',
             'CORS handling and the GrpcWebLayer wiring',
